@@ -113,3 +113,59 @@ func PhiLeaves(v ssa.Value) ([]PhiLeaf, map[*ssa.Phi]bool) {
 	visit(v)
 	return leaves, phis
 }
+
+// CycleAvoidingEdges is CycleAvoiding with an additional edge filter:
+// edges for which cutEdge(from, to) is true are not followed.
+func CycleAvoidingEdges(fn *ssa.Function, cut func(*ssa.BasicBlock) bool, cutEdge func(from, to *ssa.BasicBlock) bool) []*ssa.BasicBlock {
+	if len(fn.Blocks) == 0 {
+		return nil
+	}
+	color := map[*ssa.BasicBlock]int{}
+	var stack []*ssa.BasicBlock
+	var found []*ssa.BasicBlock
+	var dfs func(b *ssa.BasicBlock) bool
+	dfs = func(b *ssa.BasicBlock) bool {
+		color[b] = 1
+		stack = append(stack, b)
+		for _, s := range b.Succs {
+			if cut(s) || cutEdge(b, s) {
+				continue
+			}
+			if color[s] == 1 {
+				for i, x := range stack {
+					if x == s {
+						found = append([]*ssa.BasicBlock{}, stack[i:]...)
+						return true
+					}
+				}
+			}
+			if color[s] == 0 && dfs(s) {
+				return true
+			}
+		}
+		stack = stack[:len(stack)-1]
+		color[b] = 2
+		return false
+	}
+	if !cut(fn.Blocks[0]) && dfs(fn.Blocks[0]) {
+		return found
+	}
+	return nil
+}
+
+// IsRangeHeader reports whether b is the header of a loop over a finite
+// collection: it contains a Next of a Range iterator, or it is the header of
+// a full-range slice loop.
+func IsRangeHeader(fn *ssa.Function, b *ssa.BasicBlock) bool {
+	for _, in := range b.Instrs {
+		if _, ok := in.(*ssa.Next); ok {
+			return true
+		}
+	}
+	for _, l := range RangeLoops(fn) {
+		if l.Header == b {
+			return true
+		}
+	}
+	return false
+}
